@@ -8,20 +8,41 @@ from . import common, pipeline, ensemble
 from .common import Corr
 
 ID = "C01"
-LEAN_MODULES = ["TempestVerif.Props.C01", "TempestVerif.Props.C03", "TempestVerif.Props.C06"]   # C03: the kernel the pipeline takes from the tape
+LEAN_MODULES = ["TempestVerif.Props.C01", "TempestVerif.Props.C01Stat", "TempestVerif.Props.C01Meas", "TempestVerif.Props.C01X",
+                "TempestVerif.Props.C03", "TempestVerif.Props.C06"]   # C03 / C06: kernel and resampler the pipeline composes
 RULE = ("whole-pipeline trace replay: real Sampler runs (kernel x resampler, clustering off, ESS mode, with and without a "
         "zero-likelihood prior region, 1-3 dimensions) are recorded with all randomness observed (prior draws, resampling "
         "uniforms, proposals with their log-likelihoods and Hastings factors, Metropolis uniforms); the Lean pipeline model "
         "(composition of the C04 weights, C20 ESS, C05 reweighting, C06 resampling, C03 acceptance, C11 warm-up and C07 record "
         "models) consumes the same tape at Float and must reproduce, for every iteration, beta, ESS, logZ, the resampled "
         "indices, the accept masks and the committed batches (tags exact, logl bit for bit; values within 1e-9). "
-        "Non-trivial = a run with at least one annealing iteration (resampling + mutation).")
+        "Non-trivial = a run with at least one annealing iteration (resampling + mutation). "
+        "extended-trace-replay: the same against the EXTENDED model (Model/PipelineX.lean) over the lattice kernel x resampler x clustering "
+        "{on,off} x reweighting mode {ESS, volume variation} x boundary kind {hard, periodic, reflective, mixed} x target {plain, "
+        "zero-likelihood region, two well-separated modes}: the tape carries only the innovations (gamma / normal / uniform draws), the "
+        "user's log-likelihood values, the trainer's modes and the mode index of every resampled walker; the model computes every "
+        "proposal (per mode, adapted step size), fold, hard-boundary rejection, Hastings factor, decision, the per-cluster step-size "
+        "adaptation, the NUMBER of steps (stopping rule) and state['acceptance'/'efficiency'/'steps'], all compared (1e-9; decisions "
+        "exact). posterior-of-run: real Sampler.run(n_total) calls recorded (the model must follow the loop guard to the same end), then "
+        "Sampler.posterior() for four option sets (default trim; plain; trim+resample; resample) against the model's posterior on its "
+        "final pool: returned rows = pool positions (bytes of x, logl exact), weights and logw within 1e-9.")
 MODELLED = ["PARTIAL: the statement is about the sampling distribution of an adaptive finite-particle estimator; what is proved is the "
             "exact-arithmetic skeleton (balance-heuristic identity: the mean unnormalised weight is exactly Z_beta and weighted sums are "
             "unbiased for the tempered integrals when batches have their nominal laws and normalisers; invariance of the tempered law under a "
             "reversible kernel; the mean-field recursion keeps every batch at its nominal law) — NOT a rate for the finite-N deviation",
-            "the Student-t fit / clustering enter the pipeline model only through the tape (proposals and Hastings factors)",
-            "volume-variation mode is not part of the pipeline model (matrix algebra); its decision logic is C05's generic-oracle theorem",
+            "the trainer (weight trimming for clustering, hierarchical GMM, Student-t fit) is opaque: the fitted modes and the mode index of "
+            "every resampled walker (clusterer.predict + ModeStatistics.mode_index: C14/C15/C19) arrive on the tape of the extended model",
+            "volume-variation mode: the DECISION logic runs in the extended model on the pool's own ESS values; the metric value "
+            "volume_variation(u, w) of every beta evaluated is tabulated on the tape (its matrix algebra is C20's)",
+            "with clustering the label -> mode map is fixed during a mutation; per-mode reversible kernels compose to an invariant one only "
+            "if moves do not cross labels (C01_label_kernel_invariant_of_no_crossing; counter-example C01_label_kernel_not_invariant) — for "
+            "overlapping clusters the mutation is NOT exactly invariant (not a finite-N effect; design property of the sampler)",
+            "the DEFAULT posterior() trims the weights (ess_trim = 0.99): it returns the self-normalised estimator restricted to "
+            "{w >= theta} (C01_trimmed_estimate_is_restricted_ratio), which targets E[f | w >= theta] (C01_trimmed_estimator_targets_"
+            "restriction) and is within 2(1-ess_trim)*sup|f| of the untrimmed one (C01_trim_bias_le_ess); the offset does not shrink "
+            "with N: finding F35_default_trim_bias (witness in harness/witnesses.py; the ensemble search uses the untrimmed estimator)",
+            "exact finite-N unbiasedness is a theorem only for the warm-up pool (C01_warmup_pool_unbiased); with estimated normalisers it is "
+            "false already for a fixed schedule and a perfect kernel (C01_estimated_normaliser_biased: E = 7877/4725 vs Z = 5/3)",
             "known findings F16/F17/F21 (C03) bias boundary-abutting / folded targets; the ensemble search attributes such cells to them"]
 ASSUMPTIONS = ["user likelihood and prior transform are pure"]
 
@@ -91,7 +112,10 @@ def correspond(tier):
         if prob:
             c.disagree(input=cfg, impl=prob, model=ans[:300])
         c.sample({"config": cfg, "iterations": len(rec.impl), "betas": [round(it["beta"], 4) for it in rec.impl], "model": ans[:120]})
-    return [c] + _dependency_suites(tier)
+    from . import pipelinex
+    cx = pipelinex.suite_replay(tier, "C01.x")
+    cp = pipelinex.suite_real_runs(tier, "C01.p", "posterior")
+    return [c, cx, cp] + _dependency_suites(tier)
 
 
 def _dependency_suites(tier):
@@ -110,6 +134,12 @@ def _dependency_suites(tier):
 
 
 def search(tier, hints):
+    # 1. the exact contract of what posterior() hands out (deterministic; cannot fire on correct code)
+    from . import psoracles
+    found = psoracles.search("posterior", tier)
+    if found:
+        return found
+    # 2. the statement's own (statistical) oracle: ensemble bias over seeds, thresholds at |z| > 6 AND beyond the allowance
     return ensemble.search_posterior(tier)
 
 
@@ -118,5 +148,9 @@ def replay(obj):
     if "witness" in f.get("replay", {}):
         from . import witnesses
         return witnesses.ALL[f["replay"]["witness"]]()
+    if "contract" in f.get("replay", {}):
+        from . import psoracles
+        r = f["replay"]
+        return psoracles.replay(r["contract"], r["cell"], r["seed"])
     r = ensemble.run_cell(f["cell"], "posterior", f.get("R", 24))
     return {"fails": r["fails"], "detail": r}
